@@ -363,8 +363,12 @@ def _run_param(case):
     obs = {"error": None, "stage": None, "steps": [], "resets": 0, "stores": None,
            "user": [[k, _tbl_json(v)] for k, v in sorted(user.items())]}
     try:
-        g = DataGeneratorParameter(jax.random.PRNGKey(case["seed"]), case["n"], case["b"], param_ranges=ranges,
-                                   method=case["method"], user_data={k: jnp.asarray(v) for k, v in user.items()})
+        # an absent source is passed as None (the documented default) in every other case
+        none_style = case["seed"] % 2 == 0
+        ud = {k: jnp.asarray(v) for k, v in user.items()}
+        g = DataGeneratorParameter(jax.random.PRNGKey(case["seed"]), case["n"], case["b"],
+                                   param_ranges=(ranges or None) if none_style else ranges,
+                                   method=case["method"], user_data=(ud or None) if none_style else ud)
     except Exception as e:  # noqa: BLE001
         obs["error"], obs["stage"] = core.err_kind(e), "init"
         return obs
